@@ -1417,20 +1417,3 @@ Proof.
   - vm_compute. reflexivity.
 Qed.
 
-Print Assumptions pinned_eval.
-Print Assumptions section_eval_one.
-Print Assumptions section_eval.
-Print Assumptions section_wf.
-Print Assumptions section_corner_cps.
-Print Assumptions section_corner.
-Print Assumptions section_cps_slice.
-Print Assumptions surface_edges_eval.
-Print Assumptions volume_faces_eval.
-Print Assumptions volume_edges_eval.
-Print Assumptions corners_eval.
-Print Assumptions extrude_bottom_is_profile.
-Print Assumptions const_par_curve_eval.
-Print Assumptions example_edges.
-Print Assumptions example_corner.
-Print Assumptions example_const_par.
-Print Assumptions const_par_curve_exec.
